@@ -741,3 +741,6 @@ CALLEES += []
 # change to the graph construction fails this check as well
 from contracts import c15 as _c15
 UNITS += list(_c15.UNITS)
+# un-setting the individual latent variables goes through the invalidating assignment (verified with the State probes of C12)
+from contracts import c12 as _c12
+UNITS += [foreign(_c12.UnsetIndividuals(), "c12")]
